@@ -374,7 +374,45 @@ def check_malformed(case):
     connection.close()
     if error is None:
         raise Violation('malformed-input-accepted:' + kind, '')
+    check_load_after_refusal(case['record'], want)
     return {kind, 'nontrivial'}
+
+
+AFTER_ZONES = {'UTC': 0, 'Etc/GMT-7': 25200, 'Etc/GMT+5': -18000,
+               'Etc/GMT-12': 43200}
+
+
+def check_load_after_refusal(record, want):
+    """The process goes on after a refused load (a notebook, a batch over
+    sites): the SAME texts, declared in another fixed-offset zone, are then
+    loaded into a fresh dataset and must give the instants those texts
+    denote in that zone."""
+    if record['tz'] not in AFTER_ZONES:
+        return
+    other = [z for z in sorted(AFTER_ZONES) if z != record['tz']][
+        record['t0'] % 3]
+    texts = dataset.render_files(record)
+    connection = sqlite3.connect(':memory:')
+    try:
+        guarded(
+            tree.mod('load').load_data,
+            connection=connection,
+            precipitation_data_file=io.StringIO(texts['precipitation']),
+            evapotranspiration_data_file=io.StringIO(
+                texts['evapotranspiration']),
+            water_level_data_file=io.StringIO(texts['water_level']),
+            time_zone_name=other)
+        got = [e for (e,) in connection.execute(
+            'SELECT epoch FROM grid_time ORDER BY epoch')]
+    finally:
+        connection.close()
+    shift = AFTER_ZONES[record['tz']] - AFTER_ZONES[other]
+    expected = [e + shift for e in want['grid']]
+    if got != expected:
+        raise Violation(
+            'instants-wrong-after-a-refused-load',
+            'texts of {} declared as {} after a refused load: grid {} '
+            'expected {}'.format(record['tz'], other, got[:4], expected[:4]))
 
 
 PARTS = [
